@@ -177,6 +177,39 @@ Theorem C01_pmtiles_header :
 Proof. exact pmh_roundtrip. Qed.
 Print Assumptions C01_pmtiles_header.
 
+(* PMTiles, the whole file: header at 0, compressed root behind it, metadata at 16384, tile data,
+   leaf directories last (the writer's layout).  For any lawful internal compression, any leaf
+   size > 0 and any number of entries, the reader's byte-level path - parse the header, read and
+   decompress root and leaves, walk the directories, add the tile-data offset, read the range -
+   returns for every id of every run the bytes the writer's entry names; likewise when all
+   entries sit in the root directory *)
+From VT Require Import Model.PMFile Proofs.PMFileProofs.
+Theorem C01_pmtiles_file :
+  forall (zip : list N -> list N) (unzip : list N -> option (list N)),
+    (forall b, unzip (zip b) = Some b) -> (forall l, zip (serialize l) <> []) ->
+  forall h0 k es meta tiles,
+    cosmetic_ok h0 -> (0 < k)%nat -> runs_ok es -> Forall entry_ok es -> Forall (fun e => (0 < e_len e)%N /\ (0 < e_run e)%N) es ->
+    (N.of_nat (length es) <= 10000000000)%N ->
+    let d := build_roots_leaves_enc zip k es in
+    let file := pm_assemble zip h0 d meta tiles in
+    (N.of_nat (length (zip (serialize (d_root d)))) <= 16384 - 127)%N -> (N.of_nat (length file) + 1 <= u64_max)%N ->
+    forall e t, In e es -> (e_id e <= t < e_id e + e_run e)%N -> (e_off e + e_len e <= N.of_nat (length tiles))%N ->
+    pm_file_lookup unzip pm_arith_variant file t = Ok (Some (PMWrite.sub tiles (e_off e) (e_len e))).
+Proof. intros zip unzip H1 H2 h0 k es meta tiles. exact (pm_written_file_lookup zip unzip H1 H2 pm_arith_variant h0 k es meta tiles). Qed.
+Print Assumptions C01_pmtiles_file.
+Theorem C01_pmtiles_file_root_only :
+  forall (zip : list N -> list N) (unzip : list N -> option (list N)),
+    (forall b, unzip (zip b) = Some b) -> (forall l, zip (serialize l) <> []) ->
+  forall h0 es meta tiles,
+    cosmetic_ok h0 -> runs_ok es -> Forall entry_ok es -> Forall (fun e => (0 < e_len e)%N /\ (0 < e_run e)%N) es ->
+    (N.of_nat (length es) <= 10000000000)%N ->
+    let file := pm_assemble zip h0 (mkDir es [] []) meta tiles in
+    (N.of_nat (length (zip (serialize es))) <= 16384 - 127)%N -> (N.of_nat (length file) <= u64_max)%N ->
+    forall e t, In e es -> (e_id e <= t < e_id e + e_run e)%N -> (e_off e + e_len e <= N.of_nat (length tiles))%N ->
+    pm_file_lookup unzip pm_arith_variant file t = Ok (Some (PMWrite.sub tiles (e_off e) (e_len e))).
+Proof. intros zip unzip H1 H2 h0 es meta tiles. exact (pm_written_file_lookup_root_only zip unzip H1 H2 pm_arith_variant h0 es meta tiles). Qed.
+Print Assumptions C01_pmtiles_file_root_only.
+
 (* tar / directory: the member name `z/x/y<.format>[.gz|.br]` the writers produce is read back to the
    same coordinate, format (all ten) and compression, for every coordinate a tile can have *)
 Theorem C01_member_names :
@@ -226,4 +259,16 @@ Example C01_example_block_in_file :
   read_tile unb file 3 (3 + 5) (N.of_nat (length cidx)) 4 2 = Ok (Some [7; 7]%N) /\
   read_tile unb file 3 (3 + 5) (N.of_nat (length cidx)) 4 1 = Ok None /\
   read_tile unb file 3 (3 + 5) (N.of_nat (length cidx)) 5 1 = Err.
+Proof. repeat split; vm_compute; reflexivity. Qed.
+
+(* a small archive: three entries in leaves of two, "compression" = a tag byte *)
+Example C01_example_pmtiles_file :
+  let zip := fun b : list N => (200 :: b)%N in
+  let unzip := fun b : list N => match b with (200 :: r)%N => Some r | _ => None end in
+  let h0 := mkPMH 0 0 0 0 0 0 0 0 3 3 3 false 2 1 2 0 3 0 0 0 0 0 0 0 in
+  let es := [mkE 1 0 2 1; mkE 2 2 3 2; mkE 9 5 1 1]%N in
+  let file := pm_assemble zip h0 (build_roots_leaves_enc zip 2 es) [123; 125]%N [11; 12; 21; 22; 23; 31]%N in
+  N.of_nat (length file) = 16409%N /\
+  pm_file_lookup unzip 1 file 3 = Ok (Some [21; 22; 23]%N) /\ pm_file_lookup unzip 1 file 9 = Ok (Some [31]%N) /\
+  pm_file_lookup unzip 1 file 4 = Ok None.
 Proof. repeat split; vm_compute; reflexivity. Qed.
